@@ -588,7 +588,7 @@ spif_mbuff_splice(spif_mbuff_t self, spif_memidx_t idx, spif_memidx_t cnt, spif_
     REQUIRE_RVAL(idx >= 0, FALSE);
     REQUIRE_RVAL(idx < self->len, FALSE);
     if (cnt < 0) {
-        cnt = idx + self->len + cnt;
+        cnt = self->len - idx + cnt;
     }
     REQUIRE_RVAL(cnt >= 0, FALSE);
     REQUIRE_RVAL(cnt <= (self->len - idx), FALSE);
@@ -630,7 +630,7 @@ spif_mbuff_splice_from_ptr(spif_mbuff_t self, spif_memidx_t idx, spif_memidx_t c
     REQUIRE_RVAL(idx >= 0, FALSE);
     REQUIRE_RVAL(idx < self->len, FALSE);
     if (cnt < 0) {
-        cnt = idx + self->len + cnt;
+        cnt = self->len - idx + cnt;
     }
     REQUIRE_RVAL(cnt >= 0, FALSE);
     REQUIRE_RVAL(cnt <= (self->len - idx), FALSE);
